@@ -26,7 +26,7 @@ func vHavocPC() *PrintCtx {
 	pc.buf = append(pc.buf[:0], stale...)
 	pc.jsonMode = vBool()
 	pc.noColor = vBool()
-	pc.layout = vStringN(1)
+	pc.layout = []string{"", time.Kitchen}[vChoose(2)] // a stale layout (concrete: it is fed to the time formatter)
 	pc.utcTime = int(vInt())
 	pc.lvl = Level(vInt())
 	pc.msg = vStringN(1)
@@ -40,7 +40,8 @@ func vHavocPC() *PrintCtx {
 	pc.bg = color.Color(vIte(vBool(), int64(color.BgBlink), int64(clrNone)))
 	pc.now = time.Unix(vInt()&0xffffff, 0)
 	pc.stackFrame = 0
-	pc.cachedSource = Source{Function: vStringN(1), File: vStringN(1), Line: int(vInt() & 0xff)}
+	// stale caller information (concrete: it would be fed to the path-hardening code)
+	pc.cachedSource = Source{Function: "stale.Func", File: "/stale/file.go", Line: 777}
 	return pc
 }
 
